@@ -9,12 +9,13 @@ Inductive obs11 :=
 
 (* input: document, ignore_extensions, dump of additional_types *)
 Definition in_C11 : Type := document * bool * list tdef.
-Definition case_C11 : Type := in_C11 * obs11.
+Definition step_C11 : Type := in_C11 * obs11.
+Definition case_C11 : Type := list step_C11.
 
 Definition model_C11 (i : in_C11) : outcome schema :=
   let '(d, ign, add) := i in build_model (BOpts ign add) d.
 
-Definition impl_agree_C11 (c : case_C11) : bool :=
+Definition impl_agree_C11 (c : step_C11) : bool :=
   match model_C11 (fst c), snd c with
   | Ok s, ObsSchema s' => schema_equiv s s'
   | Rejected k _, ObsRejected k' => Nat.eqb k k'
@@ -41,7 +42,13 @@ Definition spec_agree_C11 (i : in_C11) : bool :=
       end
   end.
 
-Definition agree_C11 (c : case_C11) : bool := impl_agree_C11 c && spec_agree_C11 (fst c).
+Definition agree_one_C11 (c : in_C11 * obs11) : bool := impl_agree_C11 c && spec_agree_C11 (fst c).
+
+(* a case is a history of calls that share the caller's additional_types
+   objects; each call must behave as if it were the first (the model is run on
+   that call's document and the pristine additional types) *)
+Definition agree_C11 (c : list (in_C11 * obs11)) : bool := forallb agree_one_C11 c.
 
 (* compact answer for diagnostics *)
-Definition show_C11 (i : in_C11) : outcome schema * bool := (model_C11 i, spec_agree_C11 i).
+Definition show_C11 (l : list in_C11) : list (outcome schema * bool) :=
+  map (fun i => (model_C11 i, spec_agree_C11 i)) l.
